@@ -298,3 +298,27 @@ impl TreeCtx {
     }
 }
 
+
+/// C18: create an on-disk tree, drop it and re-create it on the same location at once, `n` times
+pub fn reopen_loop(n: usize) -> String {
+    let dir = std::env::temp_dir().join(format!("zkh-reopen-{}", std::process::id()));
+    let _ = std::fs::remove_dir_all(&dir);
+    let cfg = format!("{{\"path\": \"{}\", \"temporary\": false}}", dir.display());
+    let mut worst = std::time::Duration::ZERO;
+    let mut failures = 0usize;
+    for k in 0..n {
+        let t0 = std::time::Instant::now();
+        match PmtreeConfig::from_str(&cfg).ok().and_then(|c| PmTree::new(4, Fr::from(0u64), c).ok()) {
+            Some(mut t) => {
+                if t.set(k % 16, Fr::from(k as u64 + 1)).is_err() {
+                    failures += 1;
+                }
+                drop(t);
+            }
+            None => failures += 1,
+        }
+        worst = worst.max(t0.elapsed());
+    }
+    let _ = std::fs::remove_dir_all(&dir);
+    format!("iterations={} failures={} worst_ms={}", n, failures, worst.as_millis())
+}
